@@ -610,6 +610,67 @@ func TestRoundTripExhaustive(t *testing.T) {
 	stats.Note("exhaustive_roundtrip", fmt.Sprintf("every valid pattern with 1-2 wildcards over {/ { } * a .} up to length %d x 3 value tuples", l))
 }
 
+// TestRoundTripWildcardChains: patterns with two to five wildcards of either kind, separated by static text of one or two
+// segments, optionally behind a prefix or a hostname and followed by a suffix, instantiated with values of minimal length
+// (one byte each), of two bytes, and - for catch-alls - of several segments.
+func TestRoundTripWildcardChains(t *testing.T) {
+	n := 0
+	for k := 2; k <= 5; k++ {
+		for mask := 0; mask < 1<<k; mask++ { // bit i set: wildcard i is a catch-all
+			for _, sep := range []string{"/x", "/x/y"} {
+				for _, prefix := range []string{"", "/v", "a.b"} {
+					for _, suffix := range []string{"", "/z", "/"} {
+						var sb strings.Builder
+						sb.WriteString(prefix)
+						for i := 0; i < k; i++ {
+							if i > 0 {
+								sb.WriteString(sep)
+							}
+							if mask>>i&1 == 1 {
+								fmt.Fprintf(&sb, "/*{c%d}", i)
+							} else {
+								fmt.Fprintf(&sb, "/{p%d}", i)
+							}
+						}
+						sb.WriteString(suffix)
+						p := sb.String()
+						if !ref.ValidPattern(p, 65535, 65535) {
+							continue
+						}
+						for _, shape := range []string{"one-byte", "two-bytes", "first-catch-all-long", "last-catch-all-long"} {
+							c := &RoundTrip{Pattern: p}
+							ws := ref.Wildcards(p)
+							for i, w := range ws {
+								v := string(rune('1' + i))
+								switch {
+								case shape == "two-bytes":
+									v += v
+								case shape == "first-catch-all-long" && w.CatchAll && mask&(1<<i-1) == 0:
+									v = v + "/" + v + v
+								case shape == "last-catch-all-long" && w.CatchAll && mask>>(i+1) == 0:
+									v = v + v + "/" + v
+								}
+								c.Values = append(c.Values, v)
+							}
+							stats.Eval()
+							stats.NonTrivial("rtchain|" + p + "|" + shape)
+							stats.Class("wildcard-chain:" + shape)
+							if n++; n%499 == 7 {
+								stats.Sample(c)
+							}
+							if err := checkRoundTrip(c); err != nil {
+								stats.Fail("roundtrip", c, "%v", err)
+								t.Fatalf("%v", err)
+							}
+						}
+					}
+				}
+			}
+		}
+	}
+	stats.Note("wildcard_chains", fmt.Sprintf("%d round trips: 2-5 wildcards x every parameter/catch-all assignment x 2 separators x 3 prefixes x 3 suffixes x 4 value shapes", n))
+}
+
 func FuzzNewRoute(f *testing.F) {
 	for _, s := range []string{"/", "/foo/{bar}", "/foo/*{bar}", "/foo/*{bar}/baz", "{sub}.example.com/a{b}/", "a.b.c/", "/a*", "/*/a}", "/{a}{b}", "a-.b/", "/a/*{b}/*{c}", strings.Repeat("a", 64) + ".com/"} {
 		f.Add(s, uint8(255), uint8(255))
